@@ -6,6 +6,7 @@ CONSTANTS
   Overwrite = "no"
   CacheOnly = FALSE
   HasDisk = TRUE
+  UpdateModes <- UM_none
   MaxQueries = 3
 INVARIANT EmitSeq
 CHECK_DEADLOCK FALSE
